@@ -244,6 +244,8 @@ def make_ops(tier, pool):
         ops.append(("enable", i, ["table", "strikethrough"]))
         ops.append(("disable", i, ["emphasis"]))
         ops.append(("disable", i, ["reference", "link"]))
+        ops.append(("disable", i, ["code"]))
+        ops.append(("enable", i, ["code"]))
         ops.append(("setopt", i, "item", "breaks", True))
         ops.append(("setopt", i, "attr", "html", False))
         ops.append(("setopt", i, "item", "typographer", True))
